@@ -30,4 +30,4 @@ require (
 	golang.org/x/text v0.17.0 // indirect
 )
 
-replace github.com/trzsz/trzsz-go => /root/w/me/repo
+replace github.com/trzsz/trzsz-go => /repo
